@@ -43,6 +43,7 @@ type renderer struct {
 	cont  *content
 	lay   string
 	files string
+	print bool // markers through print instead of log()
 }
 
 func q(s string) string { return fmt.Sprintf("%q", s) }
@@ -81,9 +82,19 @@ func (rn *renderer) ref(x string) string {
 	return q(rn.locStr(loc) + ":" + tag)
 }
 
-const prelude = `local function B(k) log("C19|" .. k .. "|B|") end
-local function R(k, v) log("C19|" .. k .. "|R|" .. tostring(v)) end
-local function E(k, v) log("C19|" .. k .. "|E|" .. tostring(v)) end
+// The markers travel through the sandbox's log() (one JSON log line each, stamped by regbot) or,
+// where log() is not visible (verbosity above info, text log format), through Lua's print on
+// stdout: one write per marker, the script name in front, newlines escaped.
+const markLog = `local function mark(k, tag, v) log("C19|" .. k .. "|" .. tag .. "|" .. tostring(v)) end
+`
+const markPrint = `local function mark(k, tag, v)
+  local s = string.gsub(string.gsub(tostring(v), "\\", "\\\\"), "\n", "\\n")
+  print("C19P|%s|" .. k .. "|" .. tag .. "|" .. s .. "\n")
+end
+`
+const prelude = `local function B(k) mark(k, "B", "") end
+local function R(k, v) mark(k, "R", v) end
+local function E(k, v) mark(k, "E", v) end
 local function str(v)
   local ok, s = pcall(tostring, v)
   if ok then return s end
@@ -99,7 +110,7 @@ local function rl(t)
   if type(t) ~= "table" then return tostring(t) end
   return "ratelimit set=" .. tostring(t.Set) .. " remain=" .. tostring(t.Remain)
 end
-log("C19|0|BEGIN|")
+mark(0, "BEGIN", "")
 `
 
 // call returns the Lua call expression of a statement, the variable its (first) result is bound
@@ -208,11 +219,16 @@ func (rn *renderer) call(st stmt) (expr, bind, enc string) {
 
 // script renders a list of abstract statements.  A guard (if.head / ifnot.head) governs the next
 // statement, a foreach runs the next one or two statements once per tag of the listed repository.
-func (rn *renderer) script(ss []stmt) string {
+func (rn *renderer) script(name string, ss []stmt) string {
 	var b strings.Builder
+	if rn.print {
+		fmt.Fprintf(&b, markPrint, name)
+	} else {
+		b.WriteString(markLog)
+	}
 	b.WriteString(prelude)
 	rn.block(&b, ss, 0, "")
-	b.WriteString("log(\"C19|99|END|\")\n")
+	b.WriteString("mark(99, \"END\", \"\")\n")
 	return b.String()
 }
 
